@@ -20,16 +20,16 @@ import (
 // C17: Create is deterministic and invariant under irrelevant variation.
 
 type c17Case struct {
-	Fmt   string `json:"fmt"`    // p2, p1
-	N     int    `json:"n"`      // number of files
-	Perm  int    `json:"perm"`   // index of the permutation of the input list (PAR2 only)
-	G     int    `json:"g"`      // goroutines
-	Cwd   string `json:"cwd"`    // set, parent, unrelated
-	Spell string `json:"spell"`  // rel, abs, dotslash, dblslash, updown
-	Via   string `json:"via"`    // lib, cli
+	Fmt   string `json:"fmt"`   // p2, p1
+	N     int    `json:"n"`     // number of files
+	Perm  int    `json:"perm"`  // index of the permutation of the input list (PAR2 only)
+	G     int    `json:"g"`     // goroutines
+	Cwd   string `json:"cwd"`   // set, parent, unrelated
+	Spell string `json:"spell"` // rel, abs, dotslash, dblslash, updown
+	Via   string `json:"via"`   // lib, cli
 	Rep   int    `json:"rep,omitempty"`
-	Big   bool   `json:"big,omitempty"` // slice size 96 and larger files, so that the goroutine option really splits the work
-	Dup   string `json:"dup,omitempty"` // the first input is listed a second time (at the end), spelled in this style
+	Big   bool   `json:"big,omitempty"`   // slice size 96 and larger files, so that the goroutine option really splits the work
+	Dup   string `json:"dup,omitempty"`   // the first input is listed a second time (at the end), spelled in this style
 	Stale int    `json:"stale,omitempty"` // the set directory already holds output files: 1 = longer garbage under the same names, 2 = shorter, 3 = unrelated text; 4 = a real earlier Create over the same inputs with ONE block; 5 = a real earlier identical Create whose recovery files were then deleted / corrupted
 }
 
